@@ -26,6 +26,7 @@ type BlockAnswer struct {
 	Topic     string
 	Partition int32
 	Err       bool
+	Code      int16 // Kafka error code used when Err is set (0: not-leader-for-partition)
 	Offset    int64
 }
 
@@ -153,6 +154,9 @@ func (b *fakeBroker) GetAvailableOffsets(request *sarama.OffsetRequest) (*sarama
 		block := &sarama.OffsetResponseBlock{Err: sarama.ErrNoError, Offsets: []int64{a.Offset}, Offset: a.Offset}
 		if a.Err {
 			block = &sarama.OffsetResponseBlock{Err: sarama.ErrNotLeaderForPartition}
+			if a.Code != 0 {
+				block.Err = sarama.KError(a.Code)
+			}
 		}
 		response.Blocks[a.Topic][a.Partition] = block
 	}
